@@ -28,6 +28,7 @@ import (
 // -optimize-grammar, -support-left-recursion), the runtime options, the block scripts, the
 // inputs and what is compared, i.e. the slice of the observation its property speaks about.
 type crossSpec struct {
+	minSize    int // (0: 1)
 	maxSize    int
 	keep       func(body *peg.Expr) bool
 	gens       []core.Gen
@@ -171,7 +172,7 @@ var (
 
 // runCross enumerates the family; it returns false when the deadline cut it.
 func runCross(c *ShardCtx, idx *int, s *crossSpec) bool {
-	for size := 1; size <= s.maxSize; size++ {
+	for size := max(1, s.minSize); size <= s.maxSize; size++ {
 		for _, body := range crossBodies(size) {
 			if s.keep != nil && !s.keep(body) {
 				continue
